@@ -802,7 +802,8 @@ def direct_connect_outputs(block=None):
     The 'w' nets that are eligible for removal with this pass
     meet the following requirements:
     * The destination wirevector of the net is an Output
-    * The source wirevector of the net doesn't go to any other nets.
+    * The source wirevector of the net doesn't go to any other nets,
+      is not a Register, and has the same bitwidth as the Output.
     """
     # Turns a netlist of the form (where [] denote nets and o is an Output):
     #
@@ -843,6 +844,11 @@ def direct_connect_outputs(block=None):
 
         dst_net = dst_nets[dest_wire][0]
         if dst_net.op != 'w' or not isinstance(dst_net.dests[0], Output):
+            continue
+
+        if net.op == 'r' or len(dst_net.dests[0]) != len(dest_wire):
+            # a register cannot be replaced by an Output, and a 'w' net to a
+            # narrower Output truncates rather than merely connecting
             continue
 
         new_net = LogicNet(
